@@ -187,11 +187,21 @@ def judge(proj, obs):
     return out
 
 
-def stream(ctx, prop):
-    """runs the stream and reports the violations that belong to `prop` ("C02" | "C03")"""
-    projs = [gen_project(ctx.rng) for _ in range(ctx.scale(12, 120))]
+def prepare(ctx):
+    return [gen_project(ctx.rng) for _ in range(ctx.scale(12, 120))]
+
+
+def execute(projs):
     with ThreadPoolExecutor(max_workers=6) as ex:
-        allobs = list(ex.map(run_project, projs))
+        return list(ex.map(run_project, projs))
+
+
+def stream(ctx, prop, projs=None, allobs=None):
+    """runs the stream (unless already run) and reports the violations that belong to `prop` ("C02" | "C03")"""
+    if projs is None:
+        projs = prepare(ctx)
+    if allobs is None:
+        allobs = execute(projs)
     known = {e.get("id") for e in common.load_known(prop) if e.get("status") == "known"}
     for proj, obs in zip(projs, allobs):
         kinds = sorted({k for t in proj["tasks"] for k in t["dep_kinds"] + [t["prod_kind"]]})
